@@ -101,6 +101,9 @@ func genC08(g *Gen, tier string, idx int) *wire.Scenario {
 		if h.Kind == "stub" && g.P(50) {
 			h.FailWrite = Pick(g, []int{300, 1000})
 		}
+		if h.Kind == "file" && !big && g.P(15) {
+			h.Unwritable = true // its directory has gone: the source still lists what is accepted, the file cannot
+		}
 		env.History = append(env.History, h)
 	}
 	env.Binds = append(env.Binds, g.Cat.Extra...)
